@@ -4,6 +4,7 @@ import (
 	"bytes"
 	"fmt"
 	"sort"
+	"strings"
 
 	"gosim/hb"
 
@@ -156,9 +157,25 @@ func sameCells(got []RCell, want []hb.Cell) bool {
 // attributeSlot checks that a successful result is the payload of exactly one
 // execution of the slot's own nonce. It returns "" if fine.
 func attributeSlot(s *Slot, byNonce map[uint64][]*hb.Exec, bySeq map[uint64]*hb.Exec) string {
+	return attributeSlotOp(s, nil, nil, byNonce, bySeq)
+}
+
+func attributeSlotOp(s *Slot, op *Op, c *hb.Cluster, byNonce map[uint64][]*hb.Exec, bySeq map[uint64]*hb.Exec) string {
 	if s.Err != nil {
 		if s.ErrClass == "app" || s.ErrClass == "retryable" || s.ErrClass == "notserving" {
-			// exception text must carry the own nonce
+			// exception text must carry the own nonce; an exception for a whole
+			// region (nonce=0) must name a region that contains the key
+			if i := strings.Index(s.ErrStr, " nonce=0 "); i >= 0 {
+				j := strings.LastIndex(s.ErrStr[:i], " region=")
+				if j < 0 || op == nil || c == nil {
+					return ""
+				}
+				name := s.ErrStr[j+8 : i]
+				if r := c.RegionByName(name); r == nil || r.Table != op.Table || !r.Contains(op.Key) {
+					return fmt.Sprintf("region-level error for region %q delivered to nonce %d whose key %q is not in that region", name, s.Nonce, op.Key)
+				}
+				return ""
+			}
 			want := fmt.Sprintf("nonce=%d ", s.Nonce)
 			if !bytes.Contains([]byte(s.ErrStr), []byte(want)) {
 				return fmt.Sprintf("error delivered to nonce %d was produced for another request: %.200s", s.Nonce, s.ErrStr)
@@ -227,12 +244,12 @@ func (w *World) AttributionCheck(prop string) []Violation {
 					}
 					continue
 				}
-				if msg := attributeSlot(&s, byNonce, bySeq); msg != "" {
+				if msg := attributeSlotOp(&s, r.Op, w.Env.C, byNonce, bySeq); msg != "" {
 					vs = append(vs, w.viol(prop, "attribution", "task %d op %d (%s): %s", r.Task, r.Idx, r.Op.Kind, msg))
 				}
 			case "batch":
 				for i := range r.Slots {
-					if msg := attributeSlot(&r.Slots[i], byNonce, bySeq); msg != "" {
+					if msg := attributeSlotOp(&r.Slots[i], &r.Op.Batch[i], w.Env.C, byNonce, bySeq); msg != "" {
 						vs = append(vs, w.viol(prop, "attribution", "task %d op %d batch slot %d (%s): %s", r.Task, r.Idx, i, r.Slots[i].Kind, msg))
 					}
 				}
